@@ -572,3 +572,80 @@ def rule_defaultclose(P) -> RuleResult:
     if good:
         res.ok({'function': run.fq, 'passes': 'default_close_date=query.date', 'through': 'execute(**kwargs) -> parse(**kwargs)'})
     return res
+
+
+# ----------------------------------------------------------------------
+# R-QUERYFROZEN (C08): the enclosing SELECT uses the compiled subquery as it was compiled
+
+def rule_queryfrozen(P) -> RuleResult:
+    """FROM (q) runs over the rows q produces by itself: while the enclosing SELECT is compiled nothing is stored into the compiled
+    subquery or its table (its ordering, limit, targets stay what q's own compilation made them)."""
+    res = RuleResult('R-QUERYFROZEN')
+    res.exhaustive = True
+    comp = P.cls(CO, 'Compiler')
+    sel = comp.methods.get('_compile_select')
+    if sel is None:
+        raise AnalysisError('anchor vanished: Compiler._compile_select')
+    SEL, SUBT, SUBQ = Sym('SELECT_NODE'), Sym('SUBQUERY_TABLE'), Sym('COMPILED_SUBQUERY')
+    T1, T2 = Sym('TARGET_key'), Sym('TARGET_aggregate')
+    n = 0
+    for ordered in (True, False):
+        for grouped in (True, False):
+            def on_attr(base, attr, ex):
+                if base == SELF and attr == 'table':
+                    return SUBT
+                if base == SUBT and attr == 'subquery':
+                    return SUBQ
+                if base == T1 and attr == 'is_aggregate':
+                    return False
+                if base == T2 and attr == 'is_aggregate':
+                    return grouped
+                if base in (T1, T2) and attr == 'name':
+                    return 'k' if base == T1 else 'v'
+                return NotImplemented
+
+            def on_isinstance(v, c, ex):
+                if v == SUBT:
+                    return gname(c).split('.')[-1] in ('SubqueryTable', 'Table')
+                if v == SUBQ:
+                    return gname(c).split('.')[-1] == 'EvalQuery'
+                return NotImplemented
+
+            def on_call(fn, fv, rc, a, k, ex, nd):
+                f = str(fn).split('.')[-1]
+                if f == '_compile_from':
+                    return None
+                if f == '_compile_targets':
+                    return SList([T1, T2])
+                if f == '_compile':
+                    return Sym('C_WHERE')
+                if f == 'is_aggregate':
+                    return False
+                if f == '_compile_group_by':
+                    return T('tuple', (SList(), SList([0]) if grouped else None, None))
+                if f == '_compile_order_by':
+                    return T('tuple', (SList(), SList([T('tuple', (0, Sym('ASC')))]) if ordered else None))
+                if f == '_compile_pivot_by':
+                    return None
+                if f in ('EvalQuery', 'EvalPivot'):
+                    return T('new', (f, a))
+                if f in ('format', 'join'):
+                    return 'x'
+                return NotImplemented
+            n0, f0 = n, len(res.findings)
+            for p in Engine(P, on_attr=on_attr, on_call=on_call, on_isinstance=on_isinstance).paths(sel, {'self': SELF, sel.params[1]: SEL}):
+                n += 1
+                for e in p.events:
+                    if e[0] in ('store', 'aug', 'mutate') and isinstance(e[1], (T, Sym)) and e[1] != _attr(SELF, 'table') and \
+                            (contains(e[1], SUBQ) or contains(e[1], SUBT)):
+                        res.fail(sel.fq, 'queryfrozen:' + (e[1].args[1] if isinstance(e[1], T) and e[1].op == 'attr' else 'write'),
+                                 f'compiling a SELECT over FROM (q) stores into the compiled subquery: `{show(e[1])} = {show(e[2])[:40]}` '
+                                 f'({"ordered" if ordered else "unordered"}, {"aggregate" if grouped else "plain"} outer query). The rows and '
+                                 f'their order are those q produces by itself; an outer ORDER BY is a stable sort over exactly that order',
+                                 loc(sel))
+                        break
+            if n == n0:
+                raise AnalysisError(f'{sel.fq}: no path interpreted')
+            if len(res.findings) == f0:
+                res.ok({'function': sel.fq, 'outer_ordered': ordered, 'outer_aggregate': grouped, 'paths': n - n0, 'stores_into_subquery': 0})
+    return res
